@@ -245,6 +245,15 @@ func r13d(c *core.Ctx) {
 		c.OK("not-in-variant", token.NoPos, nil, "gnet listener exists only on linux", "skipped for this build variant")
 		return
 	}
+	// how this build renders the connection context (a captured variable `cc`, or the type assertion it came from):
+	// the patterns below are written with `cc.` and rewritten to that rendering
+	ccBase := "cc"
+	core.EachInstr(fn, func(_ *ssa.BasicBlock, _ int, in ssa.Instruction) {
+		if fa, ok := in.(*ssa.FieldAddr); ok && core.FieldAddrRef(fa).Struct != nil && core.FieldAddrRef(fa).Struct.Obj().Name() == "connCtx" {
+			ccBase = core.Expr(fa.X)
+		}
+	})
+	cc := func(pat string) string { return strings.ReplaceAll(pat, "cc.", ccBase+".") }
 	stores := func(field string) []*ssa.Store {
 		var out []*ssa.Store
 		core.EachInstr(fn, func(_ *ssa.BasicBlock, _ int, in ssa.Instruction) {
@@ -262,10 +271,10 @@ func r13d(c *core.Ctx) {
 			unp, rel := false, false
 			for _, call := range core.Calls(fn) {
 				nm := core.CallName(call)
-				if nm == core.M("internal/dnsmsg.UnpackMsg") && core.Expr(call.Common().Args[0]) == "cc.buffer" && core.InstrDominates(call, st) && call.Block() == st.Block() {
+				if nm == core.M("internal/dnsmsg.UnpackMsg") && core.Expr(call.Common().Args[0]) == cc("cc.buffer") && core.InstrDominates(call, st) && call.Block() == st.Block() {
 					unp = true
 				}
-				if nm == core.M("internal/pool.ReleaseBuf") && core.Expr(call.Common().Args[0]) == "cc.buffer" && core.InstrDominates(call, st) && call.Block() == st.Block() {
+				if nm == core.M("internal/pool.ReleaseBuf") && core.Expr(call.Common().Args[0]) == cc("cc.buffer") && core.InstrDominates(call, st) && call.Block() == st.Block() {
 					rel = true
 				}
 			}
@@ -298,12 +307,12 @@ func r13d(c *core.Ctx) {
 		c.Check(hdr == is2, key+":hdr-flag-matches-size", rh.Pos(), fn, "readingHdr is true exactly for the 2-byte prefix buffer", fmt.Sprintf("buffer=%s readingHdr=%v", sz, hdr))
 		// readN is 0 or the number of bytes just copied into this buffer
 		rnE := core.Expr(rn.Val)
-		c.Check(rnE == "0" || strings.HasPrefix(rnE, "copy(cc.buffer, "), key+":readN-restarts", rn.Pos(), fn, "readN restarts at 0 or at the number of bytes copied into the new buffer", rnE)
+		c.Check(rnE == "0" || strings.HasPrefix(rnE, cc("copy(cc.buffer, ")), key+":readN-restarts", rn.Pos(), fn, "readN restarts at 0 or at the number of bytes copied into the new buffer", rnE)
 		// the previous buffer (if any) is released before being replaced
-		if hasCond(st.Block(), "cc.buffer != nil)", true) {
+		if hasCond(st.Block(), cc("cc.buffer != nil)"), true) {
 			rel := false
 			for _, call := range core.CallsNamed(fn, core.M("internal/pool.ReleaseBuf")) {
-				if core.Expr(call.Common().Args[0]) == "cc.buffer" && core.InstrDominates(call, st) && call.Block() == st.Block() {
+				if core.Expr(call.Common().Args[0]) == cc("cc.buffer") && core.InstrDominates(call, st) && call.Block() == st.Block() {
 					rel = true
 				}
 			}
@@ -316,14 +325,14 @@ func r13d(c *core.Ctx) {
 	// readN advances only by copy(cc.buffer[cc.readN:], b)
 	for _, st := range stores("readN") {
 		e := core.Expr(st.Val)
-		ok := e == "0" || strings.HasPrefix(e, "copy(cc.buffer, ") || strings.HasPrefix(e, "(cc.readN + copy(cc.buffer[cc.readN:], ")
+		ok := e == "0" || strings.HasPrefix(e, cc("copy(cc.buffer, ")) || strings.HasPrefix(e, cc("(cc.readN + copy(cc.buffer[cc.readN:], "))
 		c.Check(ok, "readN-advance", st.Pos(), fn, "readN only advances by the number of bytes copied into the remaining space of cc.buffer (0 <= readN <= len(buffer))", e)
 	}
 	// the amount requested from gnet is exactly what is missing
 	for _, call := range core.Calls(fn) {
-		if call.Common().IsInvoke() && call.Common().Method.Name() == "Next" && hasCond(call.Block(), "cc.buffer != nil)", true) {
+		if call.Common().IsInvoke() && call.Common().Method.Name() == "Next" && hasCond(call.Block(), cc("cc.buffer != nil)"), true) {
 			e := core.Expr(call.Common().Args[0])
-			c.Check(e == "(len(cc.buffer) - cc.readN)", "next-requests-missing-bytes", call.Pos(), fn, "while reassembling, exactly the missing byte count is requested", e)
+			c.Check(e == cc("(len(cc.buffer) - cc.readN)"), "next-requests-missing-bytes", call.Pos(), fn, "while reassembling, exactly the missing byte count is requested", e)
 		}
 	}
 	// "need more data" returns (gnet.None inside the read section) happen only while incomplete
@@ -333,17 +342,17 @@ func r13d(c *core.Ctx) {
 			continue
 		}
 		cl := condList(ret.Block())
-		inReassembly := hasCond(ret.Block(), "cc.buffer != nil)", true)
+		inReassembly := hasCond(ret.Block(), cc("cc.buffer != nil)"), true)
 		if !inReassembly {
 			continue
 		}
-		ok := hasCond(ret.Block(), "(cc.readN < 2)", true) || hasCond(ret.Block(), "(cc.readN < len(cc.buffer))", true)
+		ok := hasCond(ret.Block(), cc("(cc.readN < 2)"), true) || hasCond(ret.Block(), cc("(cc.readN < len(cc.buffer))"), true)
 		c.Check(ok, "wait-only-while-incomplete", ret.Pos(), fn, "OnTraffic waits for more data only while the current buffer is incomplete", cl)
 	}
 	// decode happens only when the buffer is complete
 	for _, call := range core.CallsNamed(fn, core.M("internal/dnsmsg.UnpackMsg")) {
-		if core.Expr(call.Common().Args[0]) == "cc.buffer" {
-			c.Check(hasCond(call.Block(), "(cc.readN < len(cc.buffer))", false), "decode-when-complete", call.Pos(), fn, "the reassembled frame is decoded only when readN reached len(buffer)", condList(call.Block()))
+		if core.Expr(call.Common().Args[0]) == cc("cc.buffer") {
+			c.Check(hasCond(call.Block(), cc("(cc.readN < len(cc.buffer))"), false), "decode-when-complete", call.Pos(), fn, "the reassembled frame is decoded only when readN reached len(buffer)", condList(call.Block()))
 		}
 	}
 	// the loop continues while gnet has buffered input
@@ -382,6 +391,7 @@ func r19a(c *core.Ctx) {
 	c.Check(strings.Contains(keyDesc, "keyForPrefetch(q, remoteAddr)") && strings.Count(keyDesc, ";") == 1, "reserve-key", rcall.Pos(), fn, "the reservation key is keyForPrefetch(q, remoteAddr)", keyDesc)
 	keyCell := addrOf(key)
 	spawns := 0
+	spawnedFns := map[*ssa.Function]bool{}
 	core.EachInstr(fn, func(b *ssa.BasicBlock, _ int, in ssa.Instruction) {
 		if !isSpawn(in) {
 			return
@@ -420,8 +430,28 @@ func r19a(c *core.Ctx) {
 		}
 		miss := core.Reach(cl, nil, core.IsReturn, isDone)
 		c.Check(miss == nil, "done-on-every-path", in.Pos(), cl, "the goroutine calls prefetch.done(key) on every path", "")
+		spawnedFns[cl] = true
 		for _, d := range dcalls {
 			same := boundOrSelf(d.Common().Args[1]) == key || (keyCell != nil && boundValue(d.Common().Args[1]) == keyCell)
+			// `go r.run(key, …)`: the goroutine's parameter is bound to the spawn argument
+			if par, isPar := d.Common().Args[1].(*ssa.Parameter); isPar && !same {
+				if g, isGo := in.(*ssa.Go); isGo {
+					ga := core.CallArgs(g)
+					for k, pp := range cl.Params {
+						if pp == par && k < len(ga) {
+							a := ga[k]
+							same = a == key || boundOrSelf(a) == key
+							for _, o := range core.Origins(a, core.OriginOpts{}) {
+								for _, kk := range core.Origins(key, core.OriginOpts{}) {
+									if o == kk {
+										same = true
+									}
+								}
+							}
+						}
+					}
+				}
+			}
 			if !same {
 				for _, o := range core.Origins(d.Common().Args[1], core.OriginOpts{}) {
 					for _, k := range core.Origins(key, core.OriginOpts{}) {
@@ -437,7 +467,7 @@ func r19a(c *core.Ctx) {
 	c.Check(spawns == 1, "one-spawn", fn.Pos(), fn, "exactly one goroutine is started per successful reservation", fmt.Sprint(spawns))
 	// who calls done: only that goroutine (a done without a matching successful reserve would clear someone else's reservation)
 	for _, s := range c.CallSitesOf(done) {
-		ok := s.Fn.Parent() == fn
+		ok := s.Fn.Parent() == fn || spawnedFns[s.Fn]
 		c.Check(ok, "done-only-by-reserver:"+core.FuncName(s.Fn), s.Call.Pos(), s.Fn, "done is called only by the goroutine started after a successful reserve", "")
 	}
 	for _, s := range c.CallSitesOf(res) {
